@@ -108,7 +108,7 @@ func runNil(c *Ctx) {
 			}
 			bad := ""
 			for _, d := range ds {
-				paths, ok := EnumLits(fn.Blocks[0], 0, TabOpts{Termer: t, Limit: 300000,
+				paths, ok := EnumLits(fn.Blocks[0], 0, TabOpts{Termer: t, Limit: 300000, StopGoesOn: inCycle(d.Block()),
 					Stop: func(in ssa.Instruction, ps *pathState) bool { return in == d }})
 				if !ok {
 					bad = "too many paths"
